@@ -167,7 +167,7 @@ class BIFReader(object):
     def variable_block(self):
         # The keyword followed by a name and an opening brace; a bare "variable" can also
         # be (part of) a variable or state name.
-        start = re.finditer(r"\bvariable\s+[^\s{]+\s*\{", self.network)
+        start = re.finditer(r"(?m)^[ \t]*variable\s+[^\s{]+\s*\{", self.network)
         for index in start:
             end = self.network.find("}\n", index.start())
             yield self.network[index.start() : end]
@@ -287,7 +287,8 @@ class BIFReader(object):
     def _get_values_from_block(self, block):
         names = self.probability_expr.searchString(block)
         var_name, parents = names[0][0], names[0][1:]
-        cpds = self.cpd_expr.searchString(block)
+        # Only the body holds values; the header can contain names such as "table1".
+        cpds = self.cpd_expr.searchString(block[block.index("{") + 1 :])
 
         # Check if the block is a table.
         if bool(re.search(".*\n[ ]*(table|default) .*\n.*", block)):
